@@ -90,6 +90,11 @@ func Main(id, tier string) int {
 		children = 1
 	}
 	timeout := 20 * time.Minute
+	if tier == "thorough" {
+		// a generous wall-clock watchdog (its firing is inconclusive, never a verdict): thorough
+		// tiers are sized for well under half an hour on an idle 16-core machine
+		timeout = 2 * time.Hour
+	}
 	if chk.ChildTimeout != nil {
 		timeout = chk.ChildTimeout(tier)
 	}
